@@ -282,6 +282,7 @@ func (i *interpreter) makeViolation(tp targetPanic) *Violation {
 			}
 		}
 	}
+	allShort := true
 	if len(c.pfCalls) > 0 {
 		var restrict []*sym.Term
 		for _, pc := range c.pfCalls {
@@ -290,7 +291,13 @@ func (i *interpreter) makeViolation(tp targetPanic) *Violation {
 				c.pfFact(cand)
 				alts = append(alts, c.bytesEq(pc.bytes, strBytes(cand)))
 			}
-			restrict = append(restrict, c.B.Or(alts...))
+			if len(pc.bytes) <= 2 {
+				// exact regime: only accepted strings need to come from the (complete) candidate list
+				restrict = append(restrict, c.B.Implies(pc.ok, c.B.Or(alts...)))
+			} else {
+				allShort = false
+				restrict = append(restrict, c.B.Or(alts...))
+			}
 		}
 		c.flushPC()
 		var want []*sym.Term
@@ -301,6 +308,11 @@ func (i *interpreter) makeViolation(tp targetPanic) *Violation {
 			r, m := c.S.Check(restrict, want)
 			if r == smt.Sat {
 				model, ok = m, true
+			} else if r == smt.Unsat && allShort {
+				// every ParseFloat argument is at most two bytes long, where the stub is exact:
+				// the candidate is refuted by the real function's behaviour
+				c.Refuted++
+				return nil
 			}
 		}
 	}
